@@ -47,7 +47,7 @@ CLAIMS = {
         _TECH, '5 C35'),
     'C36': (
         'model_checking',
-        'TLC enumerates every multiset of up to 4 (thorough 5) replies over 9 kinds (matching address in 4/16-byte form, other address, other port, '
+        '(Thorough also: spec/MajorityLaw.tla -- Apalache shows the verdict formula is the strict majority for every number of replies.) TLC enumerates every multiset of up to 4 (thorough 5) replies over 9 kinds (matching address in 4/16-byte form, other address, other port, '
         'no member, wrong type byte, undecodable body, type byte only, empty payload) of spec/ConflictVote.tla with the expected verdict '
         'computed by the definition (shutdown iff matching < floor(valid/2)+1); each vector is run on a real node: NotifyConflict through '
         'serf\'s conflict delegate, the replies injected (shuffled by seed) as query responses to the real _serf_conflict query before it '
@@ -419,6 +419,22 @@ class C36(Family):
         return ["-par", str(max(4, min(16, vlib.NCPU))), "-timeout", "40"]
 
 
+def majority_law(ctx):
+    """Thorough tier: the verdict formula of ConflictVote (the one resolveNodeConflict uses) is the strict majority for EVERY
+    number of valid replies (spec/MajorityLaw.tla, n and m arbitrary naturals, Apalache); an off-by-one verdict must be refuted;
+    TLC ties MajorityLaw's formula to ConflictVote's on 0..64.  Unexpected outcomes are spec errors (exit 2), never violations."""
+    for inv, want in (("Law", "ok"), ("WrongLaw", "cex")):
+        got = vlib.apalache(ctx, "MajorityLaw", ["--init=Init", "--inv=" + inv, "--length=0"])
+        if got != want:
+            raise vlib.Inconclusive("MajorityLaw: apalache --inv=%s gave %s, expected %s -- spec error, no verdict" % (inv, got, want))
+    r = vlib.tlc(ctx, "MC_MajorityLaw", "INIT Init\nNEXT Next\nCONSTANT MaxReplies = 1\n", workers=2)
+    if r.violated:
+        raise vlib.Inconclusive("MC_MajorityLaw violated %s -- spec error, no verdict" % r.violated)
+    return {"tool": "apalache-mc 0.58.0, n and m arbitrary naturals (m <= n); TLC ASSUME ties the formula to ConflictVote on 0..64",
+            "obligations": ["2*Majority(n) > n", "2*(Majority(n)-1) <= n", "shutdown <=> 2*m <= n", "n = 0 => shutdown",
+                            "m = n > 0 => no shutdown", "off-by-one verdict refuted"]}
+
+
 def run_c36(ctx, replay):
     fam = C36(ctx, 5 if ctx.thorough() else 4)
     binary = build(ctx)
@@ -432,6 +448,7 @@ def run_c36(ctx, replay):
         groups = [("v", scheds)]
     jobs = [(tag, execute(ctx, binary, "c36", scheds, tag, fam.driver_args())) for tag, scheds in groups]
     reps = validate_many(ctx, "Trace_ConflictVote", fam.trace_cfg(), jobs)
+    law = majority_law(ctx) if ctx.thorough() and not replay else None
     shut = ran = slow = 0
     for _, tp in jobs:
         for ln in vlib.read_ndjson(tp):
@@ -446,6 +463,8 @@ def run_c36(ctx, replay):
                 "_serf_conflict query, State() after the logged outcome); evaluations = vectors in which a resolution ran and was judged",
         "samples": [groups[0][1][-1]] if groups and groups[0][1] else [],
     }
+    if law:
+        cov["unbounded_majority_law"] = law
     assume = ["replies are injected one at a time, each after the vote counter took the previous one (response channel capacity is the "
               "member count, 1 here); a vector whose query closed before all replies were in is re-run with a 4x longer timeout",
               "every reply comes from a different sender"]
